@@ -138,7 +138,7 @@ def proof_stage(prop, plan, tier, registry):
             rep.bkey = f"{q}@{prov}"
             rep.tasks = {}
             rep.trusted.add("sympy 1.14 (simplification to zero) for derivative obligations" if "derivative" in os_[0]["name"] else
-                            ("assumed ownership contracts of NumPy primitives (which results are views / fresh, which calls write): pyvc/own.py tables" if "#frame:" in os_[0]["name"] else "AST pattern obligations (no solver)"))
+                            ("assumed ownership contracts of NumPy primitives (which results are views / fresh, which calls write): pyvc/own.py tables" if ("#frame:" in os_[0]["name"] or "#noninterference:" in os_[0]["name"]) else "AST pattern obligations (no solver)"))
             for o in os_:
                 if o["status"] in ("missing", "unsupported"):
                     rep.aborts.append(dict(case="-", reason=o.get("solver_output") or o["status"], line=o.get("line")))
